@@ -110,7 +110,7 @@ def main():
                         break
             return fixed[tag]
         args = ['--hostname', pt['hostname']] + ([] if pt['port'] is None else ['--port', str(port_value(pt['port']))]) + [
-                '--num-workers', str(pt['workers']), '--num-acceptors', str(pt['workers']),
+                '--num-workers', str(pt['workers']), '--num-acceptors', str(pt.get('acceptors', pt['workers'])),
                 '--log-level', 'c', '--data-dir', tmp, '--ca-cert-dir', tmp + '/c', '--cache-dir', tmp + '/cache']
         if pt['hostnames']:
             args += ['--hostnames'] + pt['hostnames']
@@ -145,6 +145,9 @@ def main():
             time.sleep(0.3)
             for (h, prt) in bound:
                 probes['%s|%d' % (h, prt)] = probe(fam[h], (h, prt))
+                # further clients, one after the other (acceptors take turns, each hands its works to the workers in turn)
+                for k in range(1, int(pt.get('probes', 1))):
+                    probes['%s|%d#%d' % (h, prt, k)] = probe(fam[h], (h, prt), timeout=10.0)
             if pt['unix']:
                 probes['unix'] = probe(socket.AF_UNIX, tmp + '/p.sock')
             res['probes_up'] = probes
